@@ -151,6 +151,15 @@ def c11_decls(tier):
         v0.rename_form = "#[cfg_attr(all(), enum_tools(rename = %s))]"
         d = EnumDecl(r, [v0, Variant("V1"), Variant("V2", lit=base_vals[2][1])], tag={"family": "C11d-cfg_attr-rename"})
         out.append(d)
+    # (e) the enum's own NAME: single letters that generated generics use, names of prelude/core items, lower-case names
+    for nm in ["B", "F", "T", "I", "R", "N", "Item", "Iter", "Names", "IntoIter", "Option", "Some", "None", "Ok", "Err", "Result", "Iterator",
+               "From", "Into", "TryFrom", "FromStr", "Copy", "Sized", "Debug", "Display", "FnMut", "Map", "Copied", "RangeInclusive",
+               "MaybeUninit", "Formatter", "E0", "value", "r", "x", "s", "it", "core", "std", "Self_", "r#type"]:
+        for r, vals in (("i8", ["-2", None, None]), ("u16", ["1", "2", "9"])):
+            d = EnumDecl(r, [Variant("A", lit=vals[0]), Variant("Bv", lit=vals[1]), Variant("C", lit=vals[2])], name=nm,
+                         tag={"family": "C11e-enum-name", "name": nm})
+            d.full_config = True
+            out.append(d)
     return out
 
 
@@ -190,9 +199,16 @@ def c11(tier):
         b = dict(x1_depth=1, x2_extra=1, x2_cap=5)
         if big:
             b = dict(x1_depth=1, x2_extra=0, x2_cap=1)
+        if getattr(d, "full_config", False):
+            # every feature in every iterator mode: the enum's name meets every generated item
+            for j, m in enumerate(({}, {"iter": "table", "as_str": "table", "from_str": "table", "FromStr": "table"},
+                                   {"iter": "next_and_back", "as_str": "match", "from_str": "match", "FromStr": "match"})):
+                subs.append(Subj("s%05d_%d" % (i, j), d, catalogue.full_config(d.gapless, m), bounds=b, sweep_full=False))
+            subs.append(Subj("s%05d_3" % i, d, Config([("iter", {"mode": "table_inline"}), "names", "Debug", "TryFrom", "FromStr"]), bounds=b, sweep_full=False))
+            continue
         s = Subj("s%05d" % i, d, cfg, bounds=b, weight=4000 if big else (40 if len(d.variants) > 64 else None), sweep_full=False)
         subs.append(s)
-    explore(res, "%s/c11" % tier, subs, phases=["conv", "order", "iter", "str"])
+    explore(res, "%s/c11" % tier, subs, phases=["conv", "order", "iter", "str", "names", "range", "from_str"])
     size_limit_e1(res, tier)
     fam = {}
     for d in decls:
